@@ -131,15 +131,22 @@ def judge(ctx, acc, dt, periods, xi, result, entry, rows=None):
             # SAMPLED series has a peak far below the natural response scale, so that an absolute error of rounding size
             # exceeds the stated relative-to-peak allowance.
             Eu, Ev = k1_envelope(T, dt, n, xi, amax)
-            if T / dt >= 250:           # regime A: long periods, rounding of the forced-term coefficients (onset measured at T/dt ~ 300 for 2-sample records)
+            # peak oscillation amplitude of the exact state (u, v/w): a phase error d_phi (truncated 6.2831853: 1.1e-9 per
+            # radian) leaks d_phi*(v/w) into u and d_phi*w*u into v, and rounding acts on the state as a whole
+            a_state = float(np.max(np.sqrt(ru[k] * ru[k] + (rv[k] / w) ** 2)))
+            if T / dt <= 2 * (1 + 1e-9):
+                a_state = max(a_state, amax / w ** 2)
+            au = av = -1.0
+            if T / dt >= 250:           # regime A: long periods, rounding of the forced-term coefficients (onset ~300 for n=2)
                 au, av = Eu, Ev
-            elif T / dt <= 2 * (1 + 1e-9):   # regime B: period at or below the Nyquist period 2*dt, sampled series can be degenerate
-                # natural scale = peak oscillation amplitude sqrt(u^2 + (v/w)^2) of the exact solution (it grows at the
-                # Nyquist resonance of the alternating record, where the sampled u is identically zero) or |a|max/w^2
-                amp = max(float(np.max(np.sqrt(ru[k] * ru[k] + (rv[k] / w) ** 2))), amax / w ** 2)
-                au, av = tol * amp + Eu, tol * amp * w + Ev
-            else:
-                au = av = -1.0
+            # regime B: the judged component is degenerate - at every sample at least 100x smaller than the state amplitude
+            # (always possible at or below the Nyquist period T <= 2*dt; elsewhere only for destructive records such as the
+            # two-sample record [1, -1]) - so an error that is within the stated allowance relative to the STATE amplitude
+            # exceeds the allowance relative to the component's own peak
+            if T / dt <= 2 * (1 + 1e-9) or pu * 100 <= a_state:
+                au = max(au, tol * a_state + Eu)
+            if T / dt <= 2 * (1 + 1e-9) or pv * 100 <= a_state * w:
+                av = max(av, tol * a_state * w + Ev)
             if (eu <= tol * pu or eu <= au) and (ev <= tol * pv or ev <= av):
                 fin = K1
         ctx.check(okk, 'u,v==exact(row)', lambda: wit(row=j, err_u=eu, err_v=ev, peak_u=pu, peak_v=pv, tol_rel=tol),
